@@ -288,6 +288,53 @@ def check_function(ctx, spec, rng, ci):
             judge(out, ref.jit[1 % len(ref.args)], "stateful-of-isb-jit", 1 % len(ref.args), "stateful+initial_style_bind")
         handler_report(h, "stateful-of-isb-jit")
         lap("stateful-of-isb-jit")
+    # ---- an initial-style primitive INSIDE the interpreted function whose wrapped function
+    # closes over a value computed earlier in that function (the closed-over tracer becomes an
+    # operand of the bind): interpreter result == the same composition without the primitive
+    def _float_leaves(a):
+        return [x for x in jtu.tree_leaves(a) if hasattr(x, "dtype") and jnp.issubdtype(jnp.asarray(x).dtype, jnp.floating)]
+
+    if _float_leaves(ref.args[0]) and ci % 2 == 0:
+        def _scale(o, c):
+            return o * c.astype(o.dtype) if hasattr(o, "dtype") and jnp.issubdtype(jnp.asarray(o).dtype, jnp.floating) else o
+
+        def g_plain(*a):
+            c = jnp.cos(sum(jnp.sum(x) for x in _float_leaves(a))) + 1.5
+            return jtu.tree_map(lambda o: _scale(o, c), f0(*a))
+
+        def g_isb(*a):
+            c = jnp.cos(sum(jnp.sum(x) for x in _float_leaves(a))) + 1.5
+            inner = initial_style_bind(prim)(lambda *b: jtu.tree_map(lambda o: _scale(o, c), f0(*b)))
+            return inner(*a)
+
+        si = 1 % len(ref.args)
+        try:
+            exp = [np.asarray(x) for x in jtu.tree_leaves(jax.jit(g_plain)(*ref.args[si]))]
+        except Exception:
+            exp = None
+            ctx.count("closure_isb_reference_failed")
+        if exp is not None:
+            h = H()
+            modes = [("stateful-of-closure-isb-jit", lambda: jax.jit(lambda *a: stateful(g_isb)(h, *a))(*ref.args[si]))]
+            if ctx.tier == "thorough" or ci % 6 == 0:
+                modes.append(("stateful-of-closure-isb-eager", lambda: stateful(g_isb)(h, *ref.args[si])))
+            for mode, thunk in modes:
+                ok, out = guarded(thunk, mode, si, "stateful+initial_style_bind")
+                if not ok:
+                    continue
+                ctx.count("mode:" + mode)
+                ctx.evaluation(fingerprint=(fclass, L, mode), nontrivial=nontrivial)
+                flat = jtu.tree_leaves(out)
+                if len(flat) != len(exp):
+                    ctx.violation(f"C36|op=stateful+initial_style_bind|on=output-tree|field=structure|cond={mode}", detail=f"{len(flat)} leaves vs {len(exp)}", **wit(si))
+                    continue
+                for j, (g, e) in enumerate(zip(flat, exp)):
+                    ctx.count("c36_leaves_compared")
+                    if not O.same_value(e, np.asarray(g), terms=ref.terms + 2):
+                        ctx.violation(f"C36|op=stateful+initial_style_bind|on={classes[j] if j < len(classes) else 'leaf'}|field=value|cond={mode}",
+                                      detail=f"output leaf {j}: got {common.short(np.asarray(g).tolist())}, the same composition without the primitive {common.short(e.tolist())}", **wit(si))
+            handler_report(h, "stateful-of-closure-isb")
+        lap("stateful-of-closure-isb")
     # ---- vmap (needs array arguments of equal structure)
     if L > 0 and not spec.py_scalar_args and (ci % 8 == 1):
         stacked = jtu.tree_map(lambda *xs: jnp.stack(xs), *ref.args)
